@@ -17,8 +17,11 @@ RULE = ("(a) atom histories from one PRNG (VERIF_SEED): 1-3 groups (valid and in
         "compared state-for-state (result, cache, counters, every bucket) with the model and result-for-result with "
         "the finite map.  (b) mixed histories: every release order of <= 4 handles of each interface family, double "
         "release, use after release, ids of another interface / file / never issued, nested opens of one path in "
-        "different modes, interleavings over up to 3 files, full teardown followed by HPend and a fresh cycle; each "
-        "answer of the library is judged by the abstract handle table.  (c) file machine histories (open/close/"
+        "different modes, interleavings over up to 3 files, full teardown followed by HPend and a fresh cycle; two or three "
+        "files open at once holding objects under identical tag/refs (ordinary, linked-block, compressed, external, chunked "
+        "elements, Vdatas, Vgroups, images, datasets) with whole-content reads through every id, Vinsert with ids of the "
+        "same / another file; each answer of the library is judged by the abstract handle table (identity of the object "
+        "computed from the content returned).  (c) file machine histories (open/close/"
         "start/end, shared paths).  A case is one call; distinct by (history text, position)")
 TRUSTED = ["Coq 8.16.1 kernel (no native_compute; vm_compute only in Examples)",
            "translator gen/gen_consts.py + plugin gen/plugins/c13_atom.py (kinds consts, enums; plugin: atom.c id macros "
@@ -203,11 +206,12 @@ KINDS = ["file", "aid", "bit", "vg", "vs", "gr", "ri", "an", "ann", "sd", "sds",
 BLOCKING = {"aid", "bit", "vs"}
 USE = {"file": "hfinq", "aid": "hinq", "bit": "hbitrd", "vg": "vname", "vs": "vsname", "gr": "grinfo", "ri": "riinfo",
        "an": "aninfo", "ann": "annlen", "sd": "sdinfo", "sds": "sdsinfo", "dim": "diminfo"}
-USE2 = {"aid": "hread", "ri": "grlut", "ann": "anendacc"}
+USE2 = {"aid": "hread", "ri": "grlut", "ann": "anendacc", "vg": "vgmem", "vs": "vsread", "sds": "sdsread"}
+USE3 = {"ri": "riread"}
 REL = {"file": "hclose", "aid": "hend", "bit": "hbitend", "vg": "vdetach", "vs": "vsdetach", "gr": "grend",
        "ri": "grendacc", "an": "anend", "sd": "sdend", "sds": "sdendacc"}
 BADCODE = {1: "stale-or-foreign-id-accepted", 2: "valid-call-refused", 3: "wrong-object", 4: "issued-id-aliases-live-handle",
-           5: "file-closed-under-attached-elements"}
+           5: "file-closed-under-attached-elements", 6: "ids-of-two-files-accepted-together"}
 
 
 class Shadow:
@@ -221,7 +225,8 @@ class Shadow:
         self.vstarted = {}         # file slot -> count
         self.path_open = {0: 0, 1: 0, 2: 0}
         self.path_w = {0: False, 1: False, 2: False}
-        self.refs = {0: {1, 2}, 1: {1, 2}, 2: {1, 2}}
+        self.refs = {0: {1, 2, 3, 4, 5, 6}, 1: {1, 2, 3, 4, 5, 6}, 2: {1, 2, 3, 4, 5, 6}}   # 3 linked 4 compressed 5 external 6 chunked
+        self.pairs = set()
         self.newvg = 5
 
     def new(self, kind, parent=None, p=None, idx=None):
@@ -264,8 +269,9 @@ class Shadow:
             self.path_w[p] = True
         return s
 
-    def child(self, kind, ps):
-        """issue a handle of 'kind' under parent slot ps (which may be stale or of the wrong kind)"""
+    def child(self, kind, ps, want=None):
+        """issue a handle of 'kind' under parent slot ps (which may be stale or of the wrong kind);
+        want = ref / index to ask for (None: random)"""
         if self.nslot >= 38:
             return None
         r = self.r
@@ -277,30 +283,31 @@ class Shadow:
         s = self.new(kind, parent=ps, p=p)
         ok = 0
         if kind == "aid":
-            ref = r.choice(sorted(self.refs[p]) + [r.choice([1, 2, 7])])
-            w = r.random() < 0.25
+            ref = want if want is not None else r.choice(sorted(self.refs[p]) + [r.choice([1, 2, 7])])
+            w = want is None and r.random() < 0.25
             ok = int(good and ref in self.refs[p] and (not w or self.path_w[p]))
             self.emit("hstart %d %d %d %s %d" % (s, ps, ref, "w" if w else "r", ok))
-            self.slots[s]["readable"] = ref in (1, 2)
+            self.slots[s]["readable"] = ref in (1, 2, 3, 4, 5, 6) and not w
         elif kind == "bit":
             ref = r.choice([1, 2])
             ok = int(good)
             self.emit("hbit %d %d %d %d" % (s, ps, ref, ok))
         elif kind == "vg":
             vst = self.vstarted.get(ps, 0) > 0
-            if r.random() < 0.2 and self.path_w[p] and self.newvg < 10:
+            if (want == "new" or (want is None and r.random() < 0.2)) and self.path_w[p] and self.newvg < 10:
                 idx = self.newvg
                 self.newvg += 1
                 ok = int(good and vst)
                 self.emit("vattach %d %d %d w %d" % (s, ps, idx, ok))
+                self.slots[s]["w"] = True
             else:
-                idx = r.choice([0, 1])
-                w = r.random() < 0.3
+                idx = want if want in (0, 1) else r.choice([0, 1])
+                w = want is None and r.random() < 0.3
                 ok = int(good and vst and (not w or self.path_w[p]))
                 self.emit("vattach %d %d %d %s %d" % (s, ps, idx, "w" if w else "r", ok))
         elif kind == "vs":
             vst = self.vstarted.get(ps, 0) > 0
-            idx = r.choice([0, 1])
+            idx = want if want is not None else r.choice([0, 1])
             ok = int(good and vst)
             self.emit("vsattach %d %d %d r %d" % (s, ps, idx, ok))
         elif kind == "gr":
@@ -310,29 +317,49 @@ class Shadow:
             ok = int(good)
             self.emit("anstart %d %d %d" % (s, ps, ok))
         elif kind == "ri":
-            idx = r.choice([0, 1, 1 + p, 2 + p, 7])
+            idx = want if want is not None else r.choice([0, 1, 1 + p, 2 + p, 7])
             ok = int(good and idx < 2 + p)
             self.emit("grselect %d %d %d %d" % (s, ps, idx, ok))
         elif kind == "ann":
-            idx = r.choice([0, 1, 1 + p, 2 + p, 7])
+            idx = want if want is not None else r.choice([0, 1, 1 + p, 2 + p, 7])
             ok = int(good and idx < 2 + p)
             self.emit("anselect %d %d %d %d" % (s, ps, idx, ok))
         elif kind == "sds":
-            idx = r.choice([0, 1, 1 + p, 2 + p, 7])
+            idx = want if want is not None else r.choice([0, 1, 1 + p, 2 + p, 7])
             ok = int(good and idx < 2 + p)
             self.emit("sdselect %d %d %d %d" % (s, ps, idx, ok))
         elif kind == "dim":
             ok = int(good)
             self.emit("sddim %d %d %d" % (s, ps, ok))
+        self.slots[s]["idx"] = locals().get("idx")
         if not ok:
             self.slots[s]["live"] = False
             self.slots[s]["maybe"] = True
         return s
 
+    def vinsert(self, sp, sc):
+        """Vinsert(vgroup slot sp, vgroup/vdata slot sc): a call that takes two ids"""
+        dp, dc = self.slots[sp], self.slots[sc]
+        ck = "s" if dc["kind"] == "vs" else "g"
+        ok = int(dp["kind"] == "vg" and dp["live"] and dp.get("w", False) and dc["kind"] in ("vg", "vs") and dc["live"]
+                 and dp["parent"] == dc["parent"] and sp != sc and (sp, dc["kind"], dc.get("idx")) not in self.pairs
+                 and not (dc["kind"] == "vg" and dc.get("idx") == dp.get("idx"))
+                 and self.path_w[dp.get("p") or 0])
+        self.pairs.add((sp, dc["kind"], dc.get("idx")))      # Vinsert refuses a tag/ref that is already a member
+        self.emit("vinsert %d %d %s %d" % (sp, sc, ck, ok))
+
     # ---- use / release ------------------------------------------------------------
     def use(self, s, as_kind=None, alt=False):
         k = as_kind or self.slots[s]["kind"]
-        op = USE2[k] if (alt and k in USE2 and (k != "aid" or self.slots[s].get("readable"))) else USE[k]
+        d = self.slots[s]
+        op = USE[k]
+        if alt and k in USE2:
+            plain = (k == "aid" and d.get("readable")) or (k in ("vg", "vs", "sds") and d.get("idx") in (0, 1, 2, 3, 4)) \
+                or k in ("ri", "ann")
+            if plain or as_kind is not None:
+                op = USE2[k]
+                if k in USE3 and self.r.random() < 0.5:
+                    op = USE3[k]
         self.emit("%s %d" % (op, s))
 
     def can_release(self, s):
@@ -478,13 +505,22 @@ def rand_history(r, nops):
                 if r.random() < 0.15:
                     return sh.ops, sh
                 sh.ops.pop()
+        elif x < 0.45:
+            vgs = sh.live("vg")
+            kids = sh.live("vg") + sh.live("vs")
+            if vgs and kids:
+                wv = [v for v in vgs if sh.slots[v].get("w")]
+                sp = r.choice(wv) if wv and r.random() < 0.8 else r.choice(vgs)
+                sc = r.choice(kids) if r.random() < 0.85 else r.choice(list(sh.slots))
+                if sh.slots[sc]["kind"] in ("vg", "vs", "lit") or not sh.slots[sc]["live"]:
+                    sh.vinsert(sp, sc)
         elif x < 0.72:
             if not sh.slots:
                 continue
             s = r.choice(list(sh.slots))
             y = r.random()
             if y < 0.75:
-                sh.use(s, alt=(r.random() < 0.3))
+                sh.use(s, alt=(r.random() < 0.5))
             else:                                        # the slot's id given to another interface's inquiry
                 k = r.choice(KINDS)
                 if k == "an" and sh.slots[s]["kind"] == "file":
@@ -529,6 +565,74 @@ def rand_history(r, nops):
     return sh.ops, sh
 
 
+XKINDS = [("aid", 3), ("aid", 4), ("aid", 5), ("aid", 6), ("aid", 1), ("vs", 1), ("vs", 0), ("vg", 0), ("vg", 1),
+          ("ri", 0), ("ri", 1), ("sds", 0), ("sds", 1), ("bit", 2)]
+
+
+def xfile_history(r, k):
+    """two or three DIFFERENT files open at once; the object with the same tag/ref/index is attached in each of them
+    at the same time; interleaved inquiries and whole-content reads through every id (the content must be that of
+    the id's own file); Vinsert with ids of another file; then release in a random admissible order."""
+    sh = Shadow(r)
+    nf = 2 if k % 3 else 3
+    paths = r.sample(range(3), nf)
+    files = [sh.hopen(p, "w" if (k + i) % 2 == 0 else "r") for i, p in enumerate(paths)]
+    for f in files:
+        sh.vstart(f)
+    chosen = [XKINDS[(k + j * 5) % len(XKINDS)] for j in range(3)] + [r.choice(XKINDS)]
+    hs = []
+    grs, sds = {}, {}
+    order = list(files)
+    for kind, want in chosen:
+        if k % 2:
+            r.shuffle(order)
+        for f in order:
+            if kind == "ri":
+                if f not in grs:
+                    grs[f] = sh.child("gr", f)
+                hs.append(sh.child("ri", grs[f], want))
+            elif kind == "sds":
+                if f not in sds:
+                    sds[f] = sh.sdstart(sh.slots[f]["p"], "r")
+                hs.append(sh.child("sds", sds[f], want))
+            elif kind == "bit":
+                hs.append(sh.child("bit", f))
+            else:
+                hs.append(sh.child(kind, f, want))
+    for rnd in range(2):
+        seq = list(hs)
+        r.shuffle(seq)
+        for h in seq:
+            sh.use(h, alt=(rnd == 1 or r.random() < 0.5))
+    # two-id calls across files
+    wfiles = [f for f in files if sh.path_w[sh.slots[f]["p"]]]
+    if wfiles:
+        fa = wfiles[0]
+        parent = sh.child("vg", fa, "new")
+        own = sh.child("vg", fa, 0)
+        ownvs = sh.child("vs", fa, 0)
+        hs += [parent, own, ownvs]
+        for fb in files:
+            if fb != fa:
+                g = sh.child("vg", fb, r.choice([0, 1]))
+                v = sh.child("vs", fb, r.choice([0, 1]))
+                hs += [g, v]
+                sh.vinsert(parent, g)
+                sh.vinsert(parent, v)
+        sh.vinsert(parent, own)
+        sh.vinsert(parent, ownvs)
+        sh.use(parent)
+    seq = list(hs)
+    r.shuffle(seq)
+    for h in seq:
+        if sh.slots[h]["live"] and sh.can_release(h) and r.random() < 0.7:
+            sh.release(h)
+            for x in r.sample(hs, min(4, len(hs))):
+                sh.use(x, alt=True)
+    teardown(sh)
+    return sh.ops
+
+
 def teardown(sh):
     """release everything the shadow believes live, children first"""
     # handles whose issue was not plainly valid may exist all the same (e.g. a new element created by a write
@@ -551,6 +655,8 @@ def teardown(sh):
 
 def reinit_history(r):
     ops, sh = rand_history(r, r.randrange(10, 30))
+    if ops and foreign_untyped(ops, len(ops) - 1):
+        return ops                       # ended on a type-confusion call (known finding): nothing after it is meaningful
     teardown(sh)
     sh.emit("hpend 0")
     # fresh cycle on the same process: every interface once more
@@ -654,7 +760,7 @@ def signature_of(hist, i, line, verdict_code):
     fk = foreign_untyped(hist, i)
     if fk:
         return fk
-    if verdict_code == 1 and op in ("sdsinfo", "diminfo", "sddim", "sdendacc"):
+    if verdict_code == 1 and op in ("sdsinfo", "sdsread", "diminfo", "sddim", "sdendacc"):
         return "sd-positional-id-accepted-after-release:" + op
     if verdict_code == 1 and op == "anendacc":
         return "anendaccess-accepts-any-id"
@@ -675,6 +781,8 @@ def run_mixed(ctx):
     for fam in fams:
         for k in range(24 if quick else 24 * 6):
             hists.append(("order:" + fam, fam_history(r, fam, perm_index=k)))
+    for k in range(60 if quick else 600):
+        hists.append(("xfile", xfile_history(r, k)))
     for k in range(150 if quick else 3000):
         hists.append(("random", rand_history(r, r.randrange(15, 70))[0]))
     for k in range(12 if quick else 150):
@@ -691,7 +799,7 @@ def run_mixed(ctx):
             for _, h in hists:
                 fh.write("N\n" + "\n".join(h) + "\n")
         rc, R = vc.run_lines(exe, tmp, timeout=1500, args=[wd])
-        keep = [l for l in R if re.match(r"^(N$|CRASH|PREPFAIL|-|[OIUL] \d)", l)]
+        keep = [l for l in R if re.match(r"^(N$|CRASH|PREPFAIL|-|[OIULP] \d)", l)]
         Rh = split_hist(keep)
         if any(l.startswith("PREPFAIL") for l in R) or len(Rh) != len(hists):
             ctx.violation("mixed-history harness did not run (%d of %d histories)" % (len(Rh), len(hists)),
@@ -700,7 +808,7 @@ def run_mixed(ctx):
         mon = os.path.join(wd, "mon.in")
         with open(mon, "w") as fh:
             for rl in Rh:
-                fh.write("N\n" + "\n".join(l for l in rl if re.match(r"^[OIUL] ", l)) + "\n")
+                fh.write("N\n" + "\n".join(l for l in rl if re.match(r"^[OIULP] ", l)) + "\n")
         _, V = vc.run_lines(mod, mon, timeout=900, args=["ht"])
         Vh = split_hist(V)
     finally:
@@ -723,7 +831,7 @@ def run_mixed(ctx):
             stats["by_op"][o] = stats["by_op"].get(o, 0) + 1
             ctx.case(("mix", hi, i, op), rl[i] != "-",
                      sample={"class": cls, "history": h[:10], "op": op, "library": rl[i]} if (hi * 17 + i) % 2999 == 0 else None)
-            if not re.match(r"^[OIUL] ", rl[i]):
+            if not re.match(r"^[OIULP] ", rl[i]):
                 continue
             stats["library_fail_answers" if rl[i].endswith(" F") else "library_ok_answers"] += 1
             v = vl[vi] if vi < len(vl) else "V missing"
@@ -748,6 +856,9 @@ def run_mixed(ctx):
             stats["crashes"] += 1
             k = min(len(rl), len(h) - 1)
             sig = ("parent-first:" + cls.split(":", 1)[1]) if cls.startswith("parent-first:") else foreign_untyped(h, k)
+            if sig is None:              # a type-confusion call earlier in the history may have damaged the record
+                for kk in range(k):
+                    sig = sig or foreign_untyped(h, kk)
             if sig and ctx.match_known(sig):
                 stats["known_finding_hits"][sig] = stats["known_finding_hits"].get(sig, 0) + 1
             if not reported:
@@ -830,9 +941,9 @@ def replay(ctx, path):
     bad = 0
     try:
         rc, R = vc.run_lines(exe, tmp, timeout=300, args=[wd])
-        keep = [l for l in R if re.match(r"^(CRASH|-|[OIUL] \d)", l)]
+        keep = [l for l in R if re.match(r"^(CRASH|-|[OIULP] \d)", l)]
         mon = os.path.join(wd, "mon.in")
-        open(mon, "w").write("N\n" + "\n".join(l for l in keep if re.match(r"^[OIUL] ", l)) + "\n")
+        open(mon, "w").write("N\n" + "\n".join(l for l in keep if re.match(r"^[OIULP] ", l)) + "\n")
         _, V = vc.run_lines(mod, mon, args=["ht"])
         V = [l for l in V if l.startswith("V ")]
         vi = 0
@@ -840,7 +951,7 @@ def replay(ctx, path):
         for i, op in enumerate(ops):
             rl = keep[i] if i < len(keep) else "(library aborted)"
             v = ""
-            if re.match(r"^[OIUL] ", rl):
+            if re.match(r"^[OIULP] ", rl):
                 v = V[vi] if vi < len(V) else ""
                 vi += 1
             print("%-28s library: %-44s handle table: %s" % (op, rl, v))
